@@ -63,6 +63,8 @@ THEOREMS = [
     "Nix.C05.shape_link_data_frame_writes",
     "Nix.C05.shape_remove_link_and_ticks",
     "Nix.C05.shape_membership_by_object",
+    "Nix.C05.shape_frame_unit_getter",
+    "Nix.C05.shape_frame_unit_setter",
 ]
 ASSUMPTIONS = [
     "HDF5 hard links are second names of one object (modelled: a link stores the target node's key); h5py object "
@@ -96,10 +98,12 @@ MANIFEST = {
                   "units) seen through the dimension and the frame alike, as is frame.units = ... through any path; a re-link leads to the "
                   "node handed in whatever id it carries; "
                   "explicit ticks and a link exclude each other after every dimension operation. The statement lists of "
-                  "link_data_array / link_data_frame / remove_link / the ticks setter, the membership tests in front of "
+                  "link_data_array / link_data_frame / remove_link / the ticks setter, the DataFrame branch of the DimensionLink.unit "
+                  "getter and setter, the membership tests in front of "
                   "every link assignment and the object comparisons of Container.__contains__ / SourceLinkContainer are "
                   "regenerated from the sources (Generated/LinkShape.lean): theorems show that all checks precede the first "
-                  "write and that the generated writes are the model's. Tied to the code also by "
+                  "write, that the generated writes are the model's and that the generated unit getter / setter branch, executed on "
+                  "any frame content, is the model's linkFrameUnit / setFrameUnit. Tied to the code also by "
                   "differential execution of seeded histories on real HDF5 files (2-3 blocks with equal names, every "
                   "mutation through a random path, read back through all paths, HDF5-level dumps) and an "
                   "implementation-side oracle whose scene holds pairs of distinct entities with the same id (id-keeping copies "
